@@ -90,7 +90,19 @@ func printJSON(r *rand.Rand, v any, b *strings.Builder) {
 	case bool:
 		b.WriteString(strconv.FormatBool(t))
 	case float64:
-		b.WriteString(strconv.FormatFloat(t, 'f', -1, 64))
+		// every JSON number syntax: plain decimal, exponent notation (e / E, signed exponent)
+		switch r.Intn(8) {
+		case 0:
+			b.WriteString(strconv.FormatFloat(t, 'e', -1, 64))
+		case 1:
+			b.WriteString(strings.ToUpper(strconv.FormatFloat(t, 'e', -1, 64)))
+		case 2:
+			b.WriteString(strings.Replace(strconv.FormatFloat(t, 'e', -1, 64), "e+", "e", 1))
+		case 3:
+			b.WriteString(strconv.FormatFloat(t, 'g', -1, 64))
+		default:
+			b.WriteString(strconv.FormatFloat(t, 'f', -1, 64))
+		}
 	case string:
 		q, _ := json.Marshal(t)
 		// json.Marshal escapes <, >, & as \u00XX: keep them literal (no murex escapes wanted)
